@@ -28,7 +28,7 @@ COMPONENTS = {
 }
 ASSUMPTIONS = ['declared budgets: local 5 tries; s3c 4 tries, 403 not retried; b2 4 tries for transport errors and 429, 1 + MAX_REAUTH_ATTEMPTS attempts for other statuses',
                'stray temporary files after a failed local upload are recorded as a probe, not judged']
-PROBES = ['e2e', 'e2e_fault_fired', 'concurrent_expiry', 'masked', 'persistent_raised', 'gray_zone', 'rewound_partial_stream', 'lost_response', 'mid_upload', 'mid_download', 'b2_reauth', 'retry_after_honoured']
+PROBES = ['list_ok_with_error_body', 'e2e', 'e2e_fault_fired', 'concurrent_expiry', 'masked', 'persistent_raised', 'gray_zone', 'rewound_partial_stream', 'lost_response', 'mid_upload', 'mid_download', 'b2_reauth', 'retry_after_honoured']
 TIERS = {'quick': {'budget_s': 60, 'batch': 4}, 'thorough': {'budget_s': 900, 'batch': 8}}
 
 OPS = ['exists', 'upload', 'upload_stream', 'download', 'download_stream', 'list_files', 'delete']
@@ -65,7 +65,9 @@ def gen_case(seed, tier):
     size = max(0, k * chunk + rng.choice([-1, 0, 0, 1]))
     return {'seed': seed, 'sched_seed': seed, 'adapter': rng.choice(['local', 's3', 's3', 'b2', 'b2']), 'op': rng.choice(OPS), 'chunk': chunk, 'size': size,
             'preexisting': rng.random() < 0.6, 'old_size': rng.choice([0, 5, 200]), 'page': rng.choice([1, 2, 1000]), 'others': rng.randrange(0, 4),
-            'rate_limited': rng.random() < 0.5, 'opts': world.SchedOpts.swarm(rng, timer_p=0.0).as_dict(), 'max_points': 90 if tier == 'quick' else 400}
+            'rate_limited': rng.random() < 0.5, 'opts': world.SchedOpts.swarm(rng, timer_p=0.0).as_dict(), 'max_points': 90 if tier == 'quick' else 400,
+            # a slow link: every request takes up to this many (simulated) seconds
+            'svc_lat': substream(seed, 'c12-slow').choice([0.0, 0.0, 0.0, 150.0])}
 
 
 NAME = 'data/ab/cd/object-name'
@@ -155,14 +157,14 @@ def run_one(case, plan, seed_extra):
                 svc = None
             elif adapter == 's3':
                 svc = fakes.FakeS3(bucket='bkt', key_id='AKID', secret='secret/key+1', region='us-east-1', host='s3.fake.test',
-                                   page_size=case['page'], faults=[fakes.Fault.from_dict(f) for f in plan], request_budget=40)
+                                   page_size=case['page'], faults=[fakes.Fault.from_dict(f) for f in plan], request_budget=40, latency=case.get('svc_lat', 0.0))
                 svc.objects.update(others)
                 if old is not None:
                     svc.objects[NAME] = old
                 backend = fakes.make_s3(svc)
             else:
                 svc = fakes.FakeB2(bucket_name='bkt', bucket_id='bid', key_id='kid', application_key='akey', restricted=case['size'] % 2 == 0,
-                                   page_size=case['page'], faults=[fakes.Fault.from_dict(f) for f in plan], request_budget=250)
+                                   page_size=case['page'], faults=[fakes.Fault.from_dict(f) for f in plan], request_budget=250, latency=case.get('svc_lat', 0.0))
                 for n, v in list(others.items()) + ([(NAME, old)] if old is not None else []):
                     svc.versions[n] = [('upload', v, 'seed-' + n)]
                 backend = fakes.make_b2(svc)
@@ -195,7 +197,7 @@ def run_one(case, plan, seed_extra):
                 out['syscalls'] = list(out['fs'].log)
                 out['counters'] = dict(out['fs'].fired)
         opts = world.SchedOpts.from_dict(case['opts'])
-        opts.time_cap = 4000.0
+        opts.time_cap = 4000.0 + 300 * case.get('svc_lat', 0.0)     # on a slow link the bounded number of attempts simply takes longer
         r = world.run_process(env, main, opts)
         out['proc'] = r
         out['old'], out['new'], out['others'] = old, new, others
@@ -322,6 +324,8 @@ def judge(case, plan, out, base_requests, viol, probes, label):
         probes['gray_zone'] = probes.get('gray_zone', 0) + 1
     if adapter == 'local' and out.get('stray'):
         probes['stray_temp_file'] = probes.get('stray_temp_file', 0) + 1
+    if f['kind'] == 'okerror':
+        probes['list_ok_with_error_body'] = probes.get('list_ok_with_error_body', 0) + 1
     if f.get('lost_response'):
         probes['lost_response'] = probes.get('lost_response', 0) + 1
     if f.get('after_chunks') is not None and not f.get('lost_response'):
@@ -396,6 +400,12 @@ def plans_for(case, base):
                     continue
                 for count in (1, 2, 3, None):
                     plans.append([{'kind': kind, 'op': op, 'count': count, 'skip': 0, 'after_chunks': after, 'lost_response': lost, 'code': None}])
+        if adapter == 's3' and op == 'list':
+            # a listing request answered "200 OK" with an error document, once or twice, for the first page or a later one:
+            # the listing is complete all the same, or the call raises
+            for count in (1, 2):
+                for skip in (0, 1, 2):
+                    plans.append([{'kind': 'okerror', 'op': op, 'count': count, 'skip': skip, 'after_chunks': None, 'lost_response': False, 'code': None}])
     return plans
 
 
